@@ -129,7 +129,11 @@ def verify_function(reg, contract, prefix=""):
             ctx.assume(st, spec_eval(st, node))
         ctx.verifying_fq_transparent = None
         ex.run_ghost(st, "entry")
-        ex.run_block(st, body)
+        for idx, stmt in enumerate(body):
+            if st.dead:
+                break
+            ex.run_block(st, [stmt])
+            ex.run_ghost(st, "after_stmt%d" % (idx + 1))
         outs = list(fr.returns)
         if not st.dead:
             outs.append((st, NONE))
